@@ -173,9 +173,13 @@ func isPMTSweep(c *mon.Ctx, pat psi.PAT, p *ref.PAT, r *gen.Rand, all bool) {
 	}
 }
 
+// keptPATs: decoded PATs that are looked at again after many later ones were decoded.
+var keptPATs mon.Keeper
+
 func run(c *mon.Ctx) {
 	c.Rule("PAT sections built from ground-truth entries by a reference builder (0..253 entries for the payload carrier, 0..42 for packet/stream carriers; network entries, boundary program numbers and PIDs), each decoded through its carrier. distinct non-trivial = distinct (carrier, entry-count class, has network entry, single-program verdict, padding style, packets before the PAT) with at least one entry")
 	c.Assume("pointer_field is 0 (the statement does not vary it for PAT); payload carriers of exactly 188 bytes are avoided because NewPAT documents that it treats a 188-byte slice as a transport packet; program numbers within one table are distinct")
+	c.Floor("kept.decoded PAT.looked_at_again_after_64_or_more_later_objects", 500)
 	c.Floor("concurrent.calls", 5000)
 	c.Stream("concurrent-decoders", c.N(8, 200), func(i int, r *gen.Rand) {
 		c.Concurrent("psi.NewPAT (payload, packet) / psi.ReadPAT", 8, 2000, r, func(q *gen.Rand) string {
@@ -281,6 +285,16 @@ func run(c *mon.Ctx) {
 		pat, err := psi.NewPAT(pay)
 		c.Eval(1)
 		ok := checkPAT(c, "payload", pat, err, &p, snap)
+		if ok && i%4 == 0 {
+			// an object of its own is kept and looked at again after 1 ... 4095 later PATs were decoded
+			if pk, err := psi.NewPAT(append([]byte{}, snap...)); err == nil && pk != nil {
+				truth, in := p, snap
+				keptPATs.Keep(c, "decoded PAT", r, func() string {
+					checkPAT(c, "payload-object-kept-across-many-later-decodes", pk, nil, &truth, in)
+					return ""
+				})
+			}
+		}
 		if !bytes.Equal(pay, snap) {
 			c.Fail("payload:input-modified", "NewPAT or a getter modified the payload bytes", wit{"payload", entriesString(&p), mon.Hex(snap), ""})
 		}
